@@ -9,7 +9,7 @@ from tfv.core import Violation, run_async
 from tfv.data import Tree
 from tfv.impl import Harness, clean_registry
 from tfv.model import print_document
-from tfv.props import c01
+from tfv.props import c01, c02
 
 ID = "C18"
 LEVEL = "exploration"
@@ -148,8 +148,14 @@ def check_envelope(spec, resp, query_text_for_locations, coercer, calls, front):
     else:
         if resp["data"] is None:
             bad("data is null but no errors are reported", "null_without_errors")
+    if "zz_touched_by" in str(resp):
+        bad("the response carries an annotation that a caller wrote into an *earlier* response (error objects shared between responses)", "shared_error")
     if front[0] == "syntax" or (front[0] == "doc" and selection_fails(front[1], spec["op"])):
         why = "syntax error" if front[0] == "syntax" else "failed operation selection"
+        # nobody sets extensions on these errors; a document that also breaks validation rules is reported by the rules
+        # instead, whose entries carry their rule / spec reference
+        if coercer is None and any(isinstance(e, dict) and "extensions" in e and not (front[0] == "doc" and "rule" in e["extensions"]) for e in resp.get("errors") or ()):
+            bad("%s reported with `extensions` nobody set" % why, "extensions_unset")
         if resp["data"] is not None or "errors" not in resp:
             bad("%s must give data: null with errors" % why, "not_refused")
         if calls:
@@ -174,6 +180,7 @@ def run_one(spec, h, coercer):
     if coercer is not None:
         coercer.calls, coercer.returned = [], []
     tree = Tree(spec["schema"], None, copy.deepcopy(spec.get("tree")) if spec.get("tree") else None)
+    c02.install(tree, [(tuple(k), c02.fault_from_json(f)) for k, f in spec.get("faults") or ()])
     h.set_tree(tree)
     roots = spec["schema"]["roots"]
 
@@ -203,13 +210,15 @@ def case(c, stats):
     valid = []
     for _ in range(3):
         spec, _ = c01.build_request(c, schema, plan, {"max_nodes": 10})
-        c01.reference(spec, c)
+        _, ex, _, _ = c01.reference(spec, c)
+        spec["fault_keys"] = [list(key) for lab, key, f, _ in c02.fault_sites(schema, ex) if lab == "raise"]
         valid.append(spec)
     for _ in range(REQUESTS_PER_ENGINE):
-        kind = c.weighted([(4, "mutated"), (3, "random"), (2, "valid"), (1, "deep"), (1, "empty"), (2, "bytes"), (1, "typesystem"), (2, "concat"), (1, "surrogate")])
+        kind = c.weighted([(4, "mutated"), (3, "random"), (2, "valid"), (2, "failing"), (1, "deep"), (1, "empty"), (2, "bytes"), (1, "typesystem"), (2, "concat"), (1, "surrogate")])
         base = c.choice(valid)
         text = print_document(base["doc"]).text
         tree = None
+        faults = []
         if kind == "mutated":
             q = mutate_tokens(c, text)
         elif kind == "random":
@@ -217,6 +226,13 @@ def case(c, stats):
         elif kind == "valid":
             q = text
             tree = base["tree"]
+        elif kind == "failing":
+            # a valid request in which a resolver fails the way user code does: odd exception arguments, library errors tagged in place
+            q = text
+            tree = base["tree"]
+            if base["fault_keys"]:
+                fk = c.choice(["raise_odd", "raise_odd", "raise_tagged_in_place", "raise"])
+                faults = [[c.choice(base["fault_keys"]), {"kind": fk, "payload": c.int(0, 99) if fk == "raise_odd" else None}]]
         elif kind == "deep":
             depth = c.choice([50, 200, 400, 2000])
             which = c.choice(["sel", "list", "obj"])
@@ -248,8 +264,8 @@ def case(c, stats):
         op = c.weighted([(5, None), (1, ""), (3, "real"), (1, "Nope"), (1, "é x")])
         if op == "real":
             op = c.choice(ops) if ops else None
-        variables = base["variables"] if (kind == "valid" and c.maybe(80)) else c.choice([None, {}, gen_json_obj(c)])
-        spec = {"schema": schema, "plan": plan, "query": q, "op": op, "variables": variables, "tree": tree, "coercer": coercer is not None}
+        variables = base["variables"] if (kind in ("valid", "failing") and c.maybe(80)) else c.choice([None, {}, gen_json_obj(c)])
+        spec = {"schema": schema, "plan": plan, "query": q, "op": op, "variables": variables, "tree": tree, "coercer": coercer is not None, "faults": faults}
         front, resp = run_one(spec, h, coercer)
         cls = "syntax_error" if front[0] == "syntax" else ("selection_fails" if selection_fails(front[1], op) else ("has_errors" if "errors" in resp else "clean"))
         nontrivial = kind in ("mutated", "random", "deep", "bytes", "typesystem", "concat", "surrogate") or cls == "selection_fails"
